@@ -31,7 +31,7 @@ pub fn params(prop: &str, tier: Tier) -> Params {
         ("C17", Tier::Quick) => (6000, 32 * 1024, 1, 0),
         ("C17", Tier::Thorough) => (100_000, 128 * 1024, 1, 0),
         ("C18", Tier::Quick) => (6000, 32 * 1024, 8, 0),
-        ("C18", Tier::Thorough) => (100_000, 128 * 1024, 12, 0),
+        ("C18", Tier::Thorough) => (40_000, 128 * 1024, 12, 0),
         _ => (100, 1024, 1, 0),
     };
     Params {
@@ -805,6 +805,9 @@ fn generate_c18_wide(seed: u64, run: u64, rng: &mut Rng, tier: Tier, stats: &mut
     if rng.chance(1, 5) {
         case.extra_args = gen_log_level_args(rng);
     }
+    // descriptor limits as found in the wild: 1024 (Linux default), 256 (macOS default), lower
+    // in containers and under `ulimit -n`
+    case.knobs.fd_limit = *rng.pick(&[0u32, 0, 253, 125, 61]);
     let n = case.files.len();
     case.workers = rng.range(1, 8) as usize;
     case.chunks = gen_partition(rng, n);
@@ -880,6 +883,14 @@ fn sibling_unit(name: &str, skeleton_seed: u64, variant: u64, procs: usize) -> S
                     }
                     line.push_str(";\n");
                     out.push_str(&line);
+                }
+                7 if sk.chance(1, 4) => {
+                    // regions the formatter must leave alone (the set of ignored tokens is per file)
+                    if sk.chance(1, 2) {
+                        out.push_str(&format!("  // pasfmt off\n  {}   :=   {n} ;\n  // pasfmt on\n", ident(&mut vr, "Keep")));
+                    } else {
+                        out.push_str("  asm\n    MOV   EAX,  EBX\n  end;\n");
+                    }
                 }
                 _ => out.push_str(&format!("  {} := {} + AValue * {n};\n", ident(&mut vr, "Total"), ident(&mut vr, "Total"))),
             }
